@@ -125,10 +125,12 @@ func C04(p *core.Program, r *core.Report) {
 		r.Add("V1", "element visitor: text enters the builder only as text nodes of the walked tree", vm.pos, len(bt) == 0, fmt.Sprintf("other text sources: %v (text computed from a subtree bypasses the per-element gate)", bt))
 	}
 	// WalkNodes: children of a node are visited only if the visitor returned true
-	if wn := mustInl(p, r, "V1", domutilPkg+".WalkNodes"); wn != nil {
-		// remove the "fnVisit returned true" edge: the recursive call must become unreachable
+	if wn := walkerBody(p, r, "V1"); wn != nil {
+		// every path that descends (re-enters the walk for a child) carries a true answer of the
+		// visit callback - a function value called with the node of this step
+		N := fmt.Sprintf("$%d", paramIndexOfType(wn, "*html.Node"))
 		paths, _, _ := core.EnumerateDecisions(p, wn, core.DecisionOpts{Outcome: noOutcome, Event: func(in ssa.Instruction, c *core.Canon) (string, bool) {
-			if core.IsCallTo(in, domutilPkg+".WalkNodes") {
+			if call, ok := in.(*ssa.Call); ok && isSelfCall(p, wn, call) {
 				return "descend", true
 			}
 			return "", false
@@ -140,10 +142,7 @@ func C04(p *core.Program, r *core.Report) {
 			}
 			okV := false
 			for _, l := range pa.Lits {
-				if strings.HasPrefix(l.Atom, "μ(") && strings.Contains(l.Atom, "dyn:$1($0)") && l.Val {
-					okV = true
-				}
-				if strings.Contains(l.Atom, "dyn:$1($0)") && l.Val {
+				if l.Val && strings.Contains(l.Atom, "dyn:") && strings.Contains(l.Atom, "("+N+")") {
 					okV = true
 				}
 			}
